@@ -24,6 +24,6 @@ CONSTANTS
   Defect_McpStickyRefs = FALSE
   Defect_McpRcLostAtSnapshot = FALSE
 VIEW View
-INVARIANTS LiveIsFold SnapshotsExact
+INVARIANTS LiveIsFold SnapshotsExact ImportRebuildsAllButNamespaces
 PROPERTIES RestartExact
 CHECK_DEADLOCK FALSE
